@@ -6,6 +6,8 @@ import Drv.Util
 import Drv.Tables
 import Acpi.Tables.Fixed
 import Acpi.Spec.FixedLayout
+import Acpi.Tables.Misc
+import Acpi.Props.C04.Misc
 namespace Drv
 open Acpi
 
@@ -130,5 +132,30 @@ def checkFix (case impl : List String) : List Fail := Id.run do
       i := i + 1
     return fails
   | _ => return bad "header"
+
+/-- stream `misc`: `gaddr io|mmio tsize addr | hex` and `gaspci width access dev fn reg | ser as_bytes` -/
+def checkMisc (case impl : List String) : List Fail :=
+  match case, impl with
+  | ["gaddr", sp, ts, a], [hx] =>
+    match nat? ts, nat? a, hexToBytes hx with
+    | some ts, some a, some bs =>
+      let io := sp = "io"
+      let m := encFields (genericAddress io ts a)
+      (if m ≠ bs then [⟨"corr", "C04", "model", s!"gaddr: model {bytesToHex m} impl {hx}"⟩] else []) ++
+      (match Spec.conforms 12 (C04.genericAddressRows io ts a) bs with
+       | some e => [⟨"prop", "C04", "layout", s!"GenericAddress: {e}"⟩]
+       | none => [])
+    | _, _, _ => [⟨"corr", "C04", "parse", "gaddr"⟩]
+  | ["gaspci", w, ac, d, f, r], [hx, ab] =>
+    match nat? w, nat? ac, nat? d, nat? f, nat? r, hexToBytes hx with
+    | some w, some ac, some d, some f, some r, some bs =>
+      let m := encFields (gasPciConfig w ac d f r)
+      (if m ≠ bs then [⟨"corr", "C04", "model", s!"gaspci: model {bytesToHex m} impl {hx}"⟩] else []) ++
+      (match Spec.conforms 12 (C04.gasPciRows w ac d f r) bs with
+       | some e => [⟨"prop", "C04", "layout", s!"GAS::new_pci_config: {e}"⟩]
+       | none => []) ++
+      (if ab ≠ hx then [⟨"prop", "C14", "raw-form-differs", s!"GAS: as_bytes {ab} serialised {hx}"⟩] else [])
+    | _, _, _, _, _, _ => [⟨"corr", "C04", "parse", "gaspci"⟩]
+  | _, _ => [⟨"corr", "C04", "parse", "misc"⟩]
 
 end Drv
